@@ -45,6 +45,10 @@ struct C19Ctx {
   std::string op = "?";       // lifecycle operation in flight
   const char* op_lit = "?";   // same, as the string literal it was set from
   void set_op(const char* lit) { op = lit; op_lit = lit; }
+  // per-instance attribution (see TrafficSnap): arena of the object the operation in flight works on, and
+  // whether blocks of `double` are item payload for this family (points / summaries that carry their own allocator)
+  struct Arena* target = nullptr;
+  bool double_is_item_payload = false;
 };
 inline C19Ctx& c19ctx() { static C19Ctx c; return c; }
 // coarse, stable origin class of a block for violation keys: allocated while a const call was in flight
@@ -65,6 +69,9 @@ struct Arena {
   std::unordered_map<const void*, Block> live;
   std::unordered_map<const void*, size_t> freed;    // released in this case and not handed out again
   size_t live_bytes = 0, total_allocs = 0, total_bytes = 0, peak_bytes = 0, total_frees = 0;
+  // calls made THROUGH allocator instances of this arena, item payload excluded (characters of tstring items,
+  // and doubles where the family's items are vectors of double): items carry their own allocator by design
+  uint64_t n_alloc = 0, n_dealloc = 0;
   explicit Arena(int i);
   ~Arena();
   Arena(const Arena&) = delete;
@@ -83,8 +90,11 @@ inline Arena::~Arena() {
 // the instance supplied by the user
 inline Arena& default_arena() { static Arena a(-1); return a; }
 
-inline void* arena_allocate(Arena* a, size_t n, size_t elem) {
+enum { TAG_OTHER = 0, TAG_CHAR = 1, TAG_DOUBLE = 2 };
+inline bool is_item_payload(int tag) { return tag == TAG_CHAR || (tag == TAG_DOUBLE && c19ctx().double_is_item_payload); }
+inline void* arena_allocate(Arena* a, size_t n, size_t elem, int tag = TAG_OTHER) {
   Exempt e;
+  if (!is_item_payload(tag)) a->n_alloc++;
   if (a == &default_arena()) {
     count("alloc_via_default_constructed_allocator");
     static const bool trap = getenv("C19_TRAP_DEFAULT_ALLOC") != nullptr;   // debugging aid: stack trace of the offender
@@ -108,9 +118,10 @@ inline void* arena_allocate(Arena* a, size_t n, size_t elem) {
 typedef void (*release_hook_t)(const void*, size_t);
 inline release_hook_t& storage_release_hook() { static release_hook_t h = nullptr; return h; }
 
-inline void arena_deallocate(Arena* a, void* p, size_t n, size_t elem) noexcept {
+inline void arena_deallocate(Arena* a, void* p, size_t n, size_t elem, int tag = TAG_OTHER) noexcept {
   Exempt e;
   checked();
+  if (!is_item_payload(tag)) a->n_dealloc++;
   if (p == nullptr) {
     // deallocate(nullptr, n) is not allowed by the allocator requirements, but harmless; count only
     count("alloc_deallocate_nullptr");
@@ -175,15 +186,57 @@ public:
   template<typename U> track_alloc(const track_alloc<U>& o) noexcept: arena(o.arena) {}
   track_alloc& operator=(const track_alloc&) noexcept = default;
 
-  T* allocate(size_type n) { return static_cast<T*>(arena_allocate(arena, n, sizeof(T))); }
+  static constexpr int TAG = std::is_same<typename std::remove_const<T>::type, char>::value ? TAG_CHAR : (std::is_same<typename std::remove_const<T>::type, double>::value ? TAG_DOUBLE : TAG_OTHER);
+  T* allocate(size_type n) { return static_cast<T*>(arena_allocate(arena, n, sizeof(T), TAG)); }
   T* allocate(size_type n, const void*) { return allocate(n); }
-  void deallocate(T* p, size_type n) noexcept { arena_deallocate(arena, const_cast<typename std::remove_const<T>::type*>(p), n, sizeof(T)); }
+  void deallocate(T* p, size_type n) noexcept { arena_deallocate(arena, const_cast<typename std::remove_const<T>::type*>(p), n, sizeof(T), TAG); }
   track_alloc select_on_container_copy_construction() const { return *this; }
   size_type max_size() const noexcept { return (size_type(1) << 40) / sizeof(T); }
 };
 
 template<typename T, typename U> bool operator==(const track_alloc<T>& a, const track_alloc<U>& b) noexcept { return a.arena == b.arena; }
 template<typename T, typename U> bool operator!=(const track_alloc<T>& a, const track_alloc<U>& b) noexcept { return a.arena != b.arena; }
+
+// ---- per-instance attribution --------------------------------------------------------------
+// Snapshot of the per-arena call counters; afterwards tells how many (non-payload) allocate / deallocate calls
+// went through the allocator instances of a given arena, or through any arena other than the allowed ones.
+struct TrafficSnap {
+  static const int N = 16;
+  Arena* ar[N]; uint64_t a[N], d[N]; int n = 0;
+  TrafficSnap() { for (Arena* x : all_arenas()) if (n < N) { ar[n] = x; a[n] = x->n_alloc; d[n] = x->n_dealloc; ++n; } }
+  int idx(const Arena* x) const { for (int i = 0; i < n; ++i) if (ar[i] == x) return i; return -1; }
+  bool still_exists(const Arena* x) const { for (Arena* y : all_arenas()) if (y == x) return true; return false; }
+  uint64_t allocs(const Arena* x) const { const int i = idx(x); return i < 0 || !still_exists(x) ? 0 : x->n_alloc - a[i]; }
+  uint64_t deallocs(const Arena* x) const { const int i = idx(x); return i < 0 || !still_exists(x) ? 0 : x->n_dealloc - d[i]; }
+  // allocations through arenas that existed at the snapshot and are neither ok1 nor ok2; *which = id of one of them
+  uint64_t foreign_allocs(const Arena* ok1, const Arena* ok2, int* which = nullptr) const {
+    uint64_t t = 0;
+    for (int i = 0; i < n; ++i) {
+      if (ar[i] == ok1 || ar[i] == ok2 || !still_exists(ar[i])) continue;
+      const uint64_t k = ar[i]->n_alloc - a[i];
+      if (k && which) *which = ar[i]->id;
+      t += k;
+    }
+    return t;
+  }
+};
+// Brackets ONE library call made inside an adapter that takes an operand living in arena `operand` while the
+// object operated on lives in c19ctx().target: by const& the operand's allocator instance must see no call at
+// all, by && it may release (be emptied) but must not allocate.
+struct OperandWatch {
+  TrafficSnap s; const Arena* operand; bool by_move; const char* what;
+  OperandWatch(const Arena* op, bool mv, const char* w): operand(op), by_move(mv), what(w) {}
+  ~OperandWatch() {
+    if (operand == nullptr || operand == c19ctx().target || c19ctx().target == nullptr) { xcount(c19ctx().family + ".operand_same_instance_unchecked"); return; }
+    const uint64_t al = s.allocs(operand), de = s.deallocs(operand);
+    checked();
+    if (al > 0 || (!by_move && de > 0))
+      c19_fail(std::string("alloc-instance|") + what + (by_move ? "|allocated-through-consumed-operands-allocator" : "|used-const-operands-allocator"),
+               std::to_string(al) + " allocate and " + std::to_string(de) + " deallocate calls went through the allocator instance of the " + (by_move ? "rvalue" : "const") +
+               " operand (arena " + std::to_string(operand->id) + ") while the object operated on owns arena " + std::to_string(c19ctx().target->id));
+    xcount(c19ctx().family + (by_move ? ".merge_move_operand_instance_checked" : ".merge_ref_operand_instance_checked"));
+  }
+};
 
 // std::string whose characters come from a tracked arena (non-trivial item type for the templated sketches)
 using tstring = std::basic_string<char, std::char_traits<char>, track_alloc<char>>;
